@@ -288,3 +288,5 @@ CLAIMS["C37"]["text"] += " No reallocating method is applied to a buffer of any 
 for _c in ("C04", "C34"):
     CLAIMS[_c]["text"] += " The diagnostic renderer's diverging arms are unreachable behind an earlier returning guard (DIAG-TOTAL)."
 CLAIMS["C32"]["text"] += " The current file and line are set unconditionally for every translated node (LOC-DISCIPLINE)."
+for _c in ("C28", "C24"):
+    CLAIMS[_c]["text"] += " Tuple implementation headers of the prelude name each component's type variable once (IMPL-HEADER)."
